@@ -2,6 +2,7 @@
    re-opening every prefix gave, compared with the model (Node/Crash.v, Node/Stages.v). *)
 From NG Require Import Common.Tactics Common.HarnessLib.
 From NG Require Export Node.Crash Node.Stages Node.CrashGC.
+From NG Require Import Node.ResetPages.
 Open Scope N_scope.
 
 (* observed values: payloads are opaque *)
@@ -28,6 +29,8 @@ Inductive case :=
          nodes?); outcome of re-opening + resuming every prefix *)
 | CLongGC (ps gcp mtb : N) (fl : list (N * bool)) (obs : list (list (N * N) * list (N * N)))
           (kinds : list N) (recov : list rres)
+| CResetPages (ps c h : N) (pages : list N)
+      (* Reset(h) of a long chain: the header-hash pages (index of the first hash) the database holds afterwards *)
 | CBackend (failed : bool) (eff : N) (applied : list N).
       (* one PutChangeSet on a persistent backend: eff = keys whose value the change set changes; applied = after
          every backend commit seen while it ran (for a call that returned an error: in the state it left behind) how
@@ -384,4 +387,7 @@ Definition check_case (c : case) : N :=
   | CLongGC ps gcp mtb fl obs kinds recov => check_long ps gcp mtb fl obs kinds recov
   | CStorageSync _ obs recov => check_storage_sync obs recov
   | CBackend failed eff applied => check_backend failed eff applied
+  | CResetPages ps c h pages =>
+      let m := list_eqb N.eqb pages (pages_after ps h) in
+      code_of m (match previous ps h with Some f => existsb (N.eqb f) pages | None => true end)
   end.
